@@ -200,6 +200,8 @@ type input struct {
 	HasSig      bool   `json:"has_sig"`
 	AlreadyDone bool   `json:"already_done"`
 	MsgKind     int    `json:"msg_kind"` // tecdsa: which protocol message type carries the claim
+	// a history on one shared validator / receiving state (hist.go) instead of one message
+	Hist *histInput `json:"hist,omitempty"`
 }
 
 const (
@@ -695,7 +697,11 @@ func main() {
 			fmt.Fprintln(os.Stderr, err)
 			os.Exit(2)
 		}
-		run(in, em, "replay")
+		if in.Hist != nil {
+			runHist(*in.Hist, em, "replay")
+		} else {
+			run(in, em, "replay")
+		}
 		em.Close("replay", nil)
 		return
 	}
@@ -898,11 +904,17 @@ func main() {
 		run(c, em, fmt.Sprintf("rand-%d", i))
 	}
 
+	// --- the validator has no memory: histories on one shared validator / receiving state
+	histories(o, rng.Fork("histories"), em)
+
 	em.Close("a case is one message delivered to one protocol step (one of the 30 call sites of "+
-		"shouldAcceptMessage / IsValidMembership) in a freshly built receiver; distinct by the whole input; "+
+		"shouldAcceptMessage / IsValidMembership) in a freshly built receiver, or one history of validations / "+
+		"messages on ONE shared MembershipValidator / receiving state (fresh key slices, one reused key buffer, "+
+		"key slice overwritten after the call, concurrent goroutines); distinct by the whole input; "+
 		"non-trivial (adversarial) when the message has to be refused for at least one reason: the claimed index is "+
 		"not a seat of the sender's operator, it is the receiver's own, another session/protocol, an excluded "+
-		"member, or a foreign key inside the payload",
+		"member, or a foreign key inside the payload (histories: at least one call has to be refused and at least two "+
+		"different keys occur)",
 		map[string]interface{}{"call_sites_in_table": len(sites), "call_sites_found": len(found)})
 }
 
